@@ -12,14 +12,14 @@ Local Open Scope N_scope.
 (* varintRLEDecode(varintRLEEncode(xs), count) = xs *)
 Theorem C02_rle_roundtrip : forall xs tl,
   Forall (fun x => x < 18446744073709551616) xs -> N.of_nat (length xs) < 18446744073709551616 ->
-  rle_decode (fst (rle_encode xs) ++ tl) (N.of_nat (length xs)) = ROk xs.
+  rle_decode (fst (rle_encode xs) ++ tl) (N.of_nat (length xs)) = RleOk xs.
 Proof. exact rle_roundtrip_full. Qed.
 Print Assumptions C02_rle_roundtrip.
 
 (* varintRLEDecodeWithHeader(varintRLEEncodeWithHeader(xs), count) = xs *)
 Theorem C02_rle_header_roundtrip : forall xs tl,
   Forall (fun x => x < 18446744073709551616) xs -> N.of_nat (length xs) < 18446744073709551616 ->
-  rle_decode_with_header (fst (rle_encode_with_header xs) ++ tl) (N.of_nat (length xs)) = ROk xs.
+  rle_decode_with_header (fst (rle_encode_with_header xs) ++ tl) (N.of_nat (length xs)) = RleOk xs.
 Proof. exact rle_header_roundtrip_full. Qed.
 Print Assumptions C02_rle_header_roundtrip.
 
@@ -50,29 +50,29 @@ Print Assumptions C02_dict_values.
 (* varintDictFind (binary search) on a built dictionary *)
 Theorem C02_dict_find : forall u v,
   StronglySorted N.lt u -> 1 <= N.of_nat (length u) <= 1048576 ->
-  (In v u -> dict_find_arr (arr_of_list u) (N.of_nat (length u)) v = Some (Z.of_nat (find_index u v)) /\
-             nth (find_index u v) u 0 = v) /\
-  (~ In v u -> dict_find_arr (arr_of_list u) (N.of_nat (length u)) v = Some (-1)%Z).
+  (In v u -> dict_find_arr (dict_arr_of_list u) (N.of_nat (length u)) v = Some (Z.of_nat (dict_find_index u v)) /\
+             nth (dict_find_index u v) u 0 = v) /\
+  (~ In v u -> dict_find_arr (dict_arr_of_list u) (N.of_nat (length u)) v = Some (-1)%Z).
 Proof. exact dict_find_correct. Qed.
 Print Assumptions C02_dict_find.
 
 (* varintDictDecode(varintDictEncode(xs)) = xs for every array the encoder accepts *)
 Theorem C02_dict_decode_roundtrip : forall xs d,
-  dict_build xs = BuildOk d ->
+  dict_build xs = DictBuildOk d ->
   Forall (fun x => x < 18446744073709551616) xs -> N.of_nat (length xs) < 18446744073709551616 ->
   forall tl,
   dict_decode (fst (dict_encode xs) ++ tl) (N.of_nat (length (fst (dict_encode xs))))
-  = DOk xs [8 * N.of_nat (length (dict_values_of xs)); mul64 (N.of_nat (length xs)) 8].
+  = DictOk xs [8 * N.of_nat (length (dict_values_of xs)); mul64 (N.of_nat (length xs)) 8].
 Proof. exact dict_decode_roundtrip. Qed.
 Print Assumptions C02_dict_decode_roundtrip.
 
 (* varintDictDecodeInto with capacity >= count *)
 Theorem C02_dict_decode_into_roundtrip : forall xs d,
-  dict_build xs = BuildOk d ->
+  dict_build xs = DictBuildOk d ->
   Forall (fun x => x < 18446744073709551616) xs -> N.of_nat (length xs) < 18446744073709551616 ->
   forall tl cap, N.of_nat (length xs) <= cap ->
   dict_decode_into (fst (dict_encode xs) ++ tl) (N.of_nat (length (fst (dict_encode xs)))) cap
-  = DOk xs [8 * N.of_nat (length (dict_values_of xs))].
+  = DictOk xs [8 * N.of_nat (length (dict_values_of xs))].
 Proof. exact dict_decode_into_full. Qed.
 Print Assumptions C02_dict_decode_into_roundtrip.
 
@@ -84,10 +84,10 @@ Theorem C02_dict_with_roundtrip : forall u xs,
   N.of_nat (length xs) < 18446744073709551616 ->
   dict_encode_with_dict (dict_of u) xs = (dict_bytes_with u xs, true) /\
   (forall tl, dict_decode (dict_bytes_with u xs ++ tl) (N.of_nat (length (dict_bytes_with u xs)))
-             = DOk xs [8 * N.of_nat (length u); mul64 (N.of_nat (length xs)) 8]) /\
+             = DictOk xs [8 * N.of_nat (length u); mul64 (N.of_nat (length xs)) 8]) /\
   (forall tl cap, N.of_nat (length xs) <= cap ->
      dict_decode_into (dict_bytes_with u xs ++ tl) (N.of_nat (length (dict_bytes_with u xs))) cap
-     = DOk xs [8 * N.of_nat (length u)]).
+     = DictOk xs [8 * N.of_nat (length u)]).
 Proof. exact dict_with_roundtrip. Qed.
 Print Assumptions C02_dict_with_roundtrip.
 
@@ -103,9 +103,9 @@ Print Assumptions C02_dict_refuses_oversize.
 (* non-vacuity *)
 Example C02_example :
   rle_decode (fst (rle_encode [7; 7; 7; 300; 300; 18446744073709551615])) 6
-    = ROk [7; 7; 7; 300; 300; 18446744073709551615] /\
+    = RleOk [7; 7; 7; 300; 300; 18446744073709551615] /\
   fst (rle_encode [7; 7; 7; 300; 300; 18446744073709551615])
     = [3; 7; 2; 241; 60; 1; 255; 255; 255; 255; 255; 255; 255; 255; 255] /\
   dict_encode [30; 10; 20; 10; 30; 30] = ([3; 10; 20; 30; 6; 2; 0; 1; 0; 2; 2], true) /\
-  dict_decode [3; 10; 20; 30; 6; 2; 0; 1; 0; 2; 2] 11 = DOk [30; 10; 20; 10; 30; 30] [24; 48].
+  dict_decode [3; 10; 20; 30; 6; 2; 0; 1; 0; 2; 2] 11 = DictOk [30; 10; 20; 10; 30; 30] [24; 48].
 Proof. vm_compute. repeat split; reflexivity. Qed.
